@@ -65,6 +65,8 @@ def check(ctx):
     r3_energy_value(ctx)
     from .c05 import periodic_plumbing
     periodic_plumbing(ctx, "C14-R1", only={"mdtraj/geometry/hbond.py"}, floor=4)
+    from .c05 import no_foreign_attribute_stores
+    no_foreign_attribute_stores(ctx, "C14-R2", [HB], floor=5)
     r4_sentinels(ctx, "C14-R4")
 
 
